@@ -258,9 +258,11 @@ def updatePredictWith (core : Core) (mode : FhMode) (s : FState) (y : Series) (c
 /-- `update_predict(y, cv, update_params)` of `_BaseWindowForecaster` -/
 def updatePredict (core : Core) (mode : FhMode) (s : FState) (y : Series) (cv : Option CvSpec)
     (updateParams : Bool) : FState × Out :=
-  match cvSpecOf s cv with
-  | .error e => (s, .err e)
-  | .ok c => updatePredictWith core mode s y c updateParams
+  if !s.fitted then (s, .err .notFitted)        -- repaired code: fitted check comes first
+  else
+    match cvSpecOf s cv with
+    | .error e => (s, .err e)
+    | .ok c => updatePredictWith core mode s y c updateParams
 
 /-- `_update_predict_single(y, fh, update_params)`: update, then `_predict(fh)` -/
 def updateThenPredict (core : Core) (mode : FhMode) (s : FState) (y : Series) (f : FH.FH)
